@@ -270,6 +270,7 @@ class Observer:
         self.skipped_big = 0
         self.ssa_state = {}
         self.unreachable_at_dom = 0
+        self.dom_analysis_keyerror = 0
 
     # ---- wrappers
     def __enter__(self):
@@ -352,8 +353,17 @@ class Observer:
             self.ssa[key]["passes"].add(pname)
             return
         from vyper.venom.analysis import DominatorTreeAnalysis, IRAnalysesCache
-        an = IRAnalysesCache(fn).request_analysis(DominatorTreeAnalysis)
-        self.ssa[key] = dict(name=ex.name, func=ftxt, R=ex.bset(list(an.cfg_post_walk)), D=ex.table(an.dominators),
+        try:
+            an = IRAnalysesCache(fn).request_analysis(DominatorTreeAnalysis)
+            R, D = ex.bset(list(an.cfg_post_walk)), ex.table(an.dominators)
+        except KeyError:
+            # the real analysis does not support unreachable predecessors (dominators[pred] KeyError); the SSA theorem
+            # only needs SOME table accepted by dom_check, so the definition-based one is used for this snapshot
+            self.dom_analysis_keyerror += 1
+            reach, dom = naive_dom(graph(ex))
+            R = nlist(sorted(reach))
+            D = "[" + "; ".join(nlist(sorted(dom[b])) if b in dom else "[]" for b in range(len(ex.blocks))) + "]"
+        self.ssa[key] = dict(name=ex.name, func=ftxt, R=R, D=D,
                              nblocks=len(ex.blocks), ninsts=ex.ninsts, text=str(fn), passes={pname}, first_pass=pname,
                              witness=ssa_witness(ex))
 
@@ -380,11 +390,17 @@ class Observer:
 
 # ------------------------------------------------------------------ evaluation in Coq
 def pick(samples, cap, rnd, size):
+    """everything the Python search already suspects and the hand-written shapes; then the largest third of the cap;
+    then a seeded sample"""
     samples = sorted(samples, key=lambda s: (-s[size], s["name"], s["ninsts"], s["func"]))
-    if len(samples) <= cap:
-        return samples
-    head = samples[:cap // 3]
-    return head + rnd.sample(samples[cap // 3:], cap - len(head))
+    must = [s for s in samples if s.get("witness") is not None or s["name"] == "s"]
+    rest = [s for s in samples if not (s.get("witness") is not None or s["name"] == "s")]
+    must = must[:cap]
+    room = max(0, cap - len(must))
+    if len(rest) <= room:
+        return must + rest
+    head = rest[:room // 3]
+    return must + head + rnd.sample(rest[room // 3:], room - len(head))
 
 
 def eval_dom(samples, complete_cap):
@@ -495,6 +511,39 @@ j:
     stop
 }
 """,
+    # a sibling that reads the version defined above the branch while the other sibling redefines it (both orders)
+    """function s {
+s:
+    %c = calldataload 0
+    %x = 1
+    jnz %c, @a, @b
+a:
+    %x = 2
+    jmp @j
+b:
+    mstore 32, %x
+    jmp @j
+j:
+    mstore 0, %x
+    stop
+}
+""",
+    """function s {
+s:
+    %c = calldataload 0
+    %x = 1
+    jnz %c, @a, @b
+a:
+    mstore 32, %x
+    jmp @j
+b:
+    %x = 2
+    jmp @j
+j:
+    mstore 0, %x
+    stop
+}
+""",
 ]
 
 
@@ -533,25 +582,56 @@ def part_dom(ctx):
     t0 = time.time()
     with warnings.catch_warnings():
         warnings.simplefilter("ignore")
+        import signal
+
+        class Hang(Exception):
+            pass
+
+        def on_alarm(*a):
+            raise Hang()
+        old = signal.signal(signal.SIGALRM, on_alarm)
+        hangs = []
         with Observer(max_insts=700 if ctx.tier == "quick" else 1500) as obs:
-            compile_shapes()
+            try:
+                signal.alarm(30)
+                compile_shapes()
+            except Hang:
+                hangs.append("hand-written CFG shapes (MakeSSA + analyses)")
+            except Exception as e:  # noqa
+                obs.errors.append(f"shapes: {type(e).__name__}: {e}")
+            finally:
+                signal.alarm(0)
             for c in progs:
                 for lvl in levels:
                     try:
+                        signal.alarm(40)
                         compile_code(c["src"], output_formats=["bytecode"], settings=Settings(experimental_codegen=True, optimize=lvl))
+                    except Hang:
+                        hangs.append(c["name"])
+                        if len(hangs) >= 2:
+                            break
                     except Exception:  # noqa
                         nfail += 1
+                    finally:
+                        signal.alarm(0)
+                if len(hangs) >= 2:
+                    break
+        signal.signal(signal.SIGALRM, old)
     t_compile = time.time() - t0
     found = False
+    if hangs:
+        ctx.violation("correspondence-broken", "compilation does not terminate under observation (no analysis result to validate): "
+                      + ", ".join(hangs), {"programs": hangs, "limit_seconds": 40})
     if obs.errors:
         ctx.violation("correspondence-broken", "cannot export an analysis result: " + obs.errors[0], {"errors": obs.errors[:5]})
     quick = ctx.tier == "quick"
-    doms = pick(list(obs.dom.values()), 60 if quick else 100000, rnd, "nblocks")
-    ssas = pick(list(obs.ssa.values()), 110 if quick else 100000, rnd, "ninsts")
-    dfgs = pick(list(obs.dfg.values()), 50 if quick else 100000, rnd, "ninsts")
+    doms = pick(list(obs.dom.values()), 40 if quick else 100000, rnd, "nblocks")
+    ssas = pick(list(obs.ssa.values()), 70 if quick else 100000, rnd, "ninsts")
+    dfgs = pick(list(obs.dfg.values()), 30 if quick else 100000, rnd, "ninsts")
     stats = {"programs": len(progs), "compile_failures": nfail, "compile_seconds": round(t_compile, 1), "calls": obs.calls,
              "distinct": {"dom": len(obs.dom), "ssa": len(obs.ssa), "dfg": len(obs.dfg)}, "too_big_skipped": obs.skipped_big,
              "functions_with_unreachable_blocks_at_dominator_analysis": obs.unreachable_at_dom,
+             "snapshots_where_DominatorTreeAnalysis_raised_KeyError": obs.dom_analysis_keyerror,
              "checked": {"dom": len(doms), "ssa": len(ssas), "dfg": len(dfgs)},
              "accepted": {"cfg": 0, "dom_sound": 0, "dom_complete": 0, "idom": 0, "df": 0, "ssa": 0, "single_def": 0, "dfg": 0}}
     total = 0
@@ -560,7 +640,7 @@ def part_dom(ctx):
         try:
             from concurrent.futures import ThreadPoolExecutor
             with ThreadPoolExecutor(max_workers=3) as ex:
-                fd = ex.submit(eval_dom, doms, 140 if quick else 400)
+                fd = ex.submit(eval_dom, doms, 100 if quick else 400)
                 fs = ex.submit(eval_ssa, ssas)
                 fg = ex.submit(eval_dfg, dfgs)
                 rd, rs, rg = fd.result(), fs.result(), fg.result()
@@ -604,7 +684,7 @@ def part_dom(ctx):
                         found = True
                         ctx.violation("failing-input", f"function is not in SSA form after {s['first_pass']}: " + s["witness"]["problem"],
                                       dict(detail, **s["witness"]), key="ssa:" + s["first_pass"])
-                    else:
+                    elif not found:
                         ctx.violation("theorem-broken", "ssa_check_sound does not apply: the SSA certificate is rejected", detail)
                 elif s["witness"] is not None and nrep < 2:
                     nrep += 1
